@@ -37,6 +37,9 @@ class FakeSock:
         if not self.chunks:
             return b''
         c = self.chunks.pop(0)
+        if c is None:      # the peer stays silent for longer than the socket time-out
+            import socket
+            raise socket.timeout('timed out')
         if callable(c):    # hook between chunks
             c(self)
             return self.recv(n)
